@@ -28,7 +28,7 @@ SHARDS = {"quick": 8, "thorough": 16}
 
 
 def gen_cases(tier, seed):
-    n = 60 if tier == "quick" else 2400
+    n = 160 if tier == "quick" else 30000
     return [{"i": i, "seed": seed} for i in range(n)]
 
 
